@@ -25,3 +25,25 @@ Definition covers (defs : list (string * list string * bool * bool)) : bool :=
 Theorem C17_to_dyn_total : covers to_dyn_defs = true.
 Proof. vm_compute. reflexivity. Qed.
 Print Assumptions C17_to_dyn_total.
+
+(* impl Clone for ReferenceUnsafe, arm by arm as written in the source: a clone is a handle of the same kind on the same
+   target - every arm rebuilds the variant it matched - the variants that own a share of the target (Rc / Arc) take another share
+   (the reference-counted clone: the target stays alive as long as any clone does), the raw-pointer variants copy the pointer,
+   and every variant of the enum has its arm.  This is the per-variant behaviour `RefHeap.clone_handle` models. *)
+Definition owning (v : string) : bool := String.eqb v "RcRefCell" || String.eqb v "ArcRwLock" || String.eqb v "ArcMutex".
+Definition clone_arm_ok (a : string * string * string) : bool :=
+  match a with
+  | (vin, vout, how) =>
+      String.eqb vin vout &&
+      (if String.eqb vin "RcRefCell" then String.eqb how "Rc::clone"
+       else if owning vin then String.eqb how "Arc::clone"
+       else String.eqb how "copy")
+  end.
+Theorem C17_clone_same_kind_and_shares : forallb clone_arm_ok clone_arms = true.
+Proof. vm_compute. reflexivity. Qed.
+Theorem C17_clone_covers_every_variant :
+  forallb (fun v => existsb (fun a => String.eqb v (fst (fst a))) clone_arms) reference_variants = true
+  /\ Nat.eqb (List.length clone_arms) (List.length reference_variants) = true /\ Nat.eqb (List.length reference_variants) 6 = true.
+Proof. vm_compute. repeat split; reflexivity. Qed.
+Print Assumptions C17_clone_same_kind_and_shares.
+Print Assumptions C17_clone_covers_every_variant.
